@@ -559,7 +559,8 @@ impl Round for Date {
     #[inline]
     fn round_century(self) -> Result<Self> {
         let input_year = self.year().unwrap();
-        if input_year > DATE_MAX_YEAR - 50 {
+        // Only years 51..=99 of the last century round up past the maximum date.
+        if input_year > DATE_MAX_YEAR - 49 {
             return Err(Error::DateOutOfRange);
         }
 
